@@ -283,25 +283,43 @@ theorem pure_facts (s : Nat) (e : Expr) (h : e.pureConj s = true) :
   | or a b _ _ => simp [Expr.pureConj] at h
   | not a _ => simp [Expr.pureConj] at h
 
-theorem where_eq_pL (q : Q2) (h : whereLeftOnly q.w = true) (hnl : nullableSide q.kind 0 = false) (l r : TRow) :
-    whereOf q.w (l, r) = pL q l := by
-  unfold pL
-  cases hw : q.w with
-  | none => simp [whereOf, pushedForK, pushedFor, holdsAll]
-  | some e =>
-    have hp : e.pureConj 0 = true := by simpa [whereLeftOnly, hw] using h
-    obtain ⟨h1, h2, h3⟩ := pure_facts 0 e hp
-    have hpush : pushedForK q.kind 0 (some e) = e.collected := by
-      unfold pushedForK pushedFor
-      simp only [hnl, Bool.not_false, Bool.true_or, filter_true']
-      simp only [h1, Bool.false_eq_true, if_false]
-      apply filter_eq_self_of
-      intro x hx
-      simp [h2 x hx]
-    rw [hpush]
-    simp only [whereOf]
-    rw [h3 l r]
-    exact holdsAll_side0 _ h2 l r []
+theorem holds_conjuncts (e : Expr) (l r : TRow) : e.holds l r = e.conjuncts.all fun c => c.holds l r := by
+  induction e with
+  | and a b iha ihb =>
+    simp only [Expr.conjuncts, List.all_append, ← iha, ← ihb]
+    simp only [Expr.holds, Expr.eval]
+    cases a.eval l r <;> cases b.eval l r <;> simp [TV.and]
+  | cmpC _ _ _ _ => simp [Expr.conjuncts]
+  | cmpCC _ _ _ => simp [Expr.conjuncts]
+  | isNull _ _ => simp [Expr.conjuncts]
+  | or _ _ _ _ => simp [Expr.conjuncts]
+  | not _ _ => simp [Expr.conjuncts]
+
+/-- when the planner's test `whereApplied` holds, WHERE on a joined row is exactly the filter of the first fetch -/
+theorem where_eq_pL (q : Q2) (h : whereApplied q.kind q.w = true) (l r : TRow) : whereOf q.w (l, r) = pL q l := by
+  cases hpl : pL q l with
+  | true =>
+    cases hw : q.w with
+    | none => simp [whereOf]
+    | some e =>
+      have hall : ∀ c ∈ e.conjuncts, c ∈ pushedForK q.kind 0 q.w := by
+        have := h
+        rw [hw] at this
+        simpa [whereApplied, List.all_eq_true, hw] using this
+      simp only [whereOf]
+      rw [holds_conjuncts, List.all_eq_true]
+      intro c hc
+      have hmem := hall c hc
+      have hside := pushedForK_side q.kind 0 q.w c hmem
+      have hP : holdsAll (pushedForK q.kind 0 q.w) l [] = true := hpl
+      unfold holdsAll at hP
+      rw [List.all_eq_true] at hP
+      rw [holds_side0 c hside l r []]
+      exact hP c hmem
+  | false =>
+    cases hwr : whereOf q.w (l, r) with
+    | false => rfl
+    | true => rw [where_pL q l r hwr] at hpl; exact absurd hpl (by simp)
 
 /-- **the fragment theorem, all join kinds, with LIMIT** -/
 theorem plan2_sound (q : Q2) (db : DB) (h : planSound q = true) : execPlan (plan q) db = evalQuery q db := by
@@ -322,14 +340,17 @@ theorem plan2_sound (q : Q2) (db : DB) (h : planSound q = true) : execPlan (plan
     exact this.trans (core_left q db db.t1)
   | some n =>
     -- LIMIT pushed: LEFT join and WHERE evaluated completely in the first fetch
-    have hcond : (q.kind.isLeft && whereLeftOnly q.w) = true := by
-      have : ((plan q).limit0.isNone || (q.kind.isLeft && whereLeftOnly q.w)) = true := hls
+    have hleft : q.kind.isLeft = true := by
+      have : ((plan q).limit0.isNone || q.kind.isLeft) = true := hls
       simpa [hl0] using this
-    simp only [Bool.and_eq_true] at hcond
-    have hleft : q.kind.isLeft = true := hcond.1
-    have hwl : whereLeftOnly q.w = true := hcond.2
-    have hnl : nullableSide q.kind 0 = false := by
-      cases hk : q.kind <;> simp_all [JoinKind.isLeft, nullableSide]
+    have hwl : whereApplied q.kind q.w = true := by
+      have h0 : (plan q).limit0 = some n := hl0
+      unfold plan at h0
+      simp only at h0
+      split at h0
+      · rename_i hc
+        exact (Bool.and_eq_true _ _ ▸ hc).2
+      · cases h0
     have hlim : q.limit = some n := by
       have : (plan q).limit0 = some n := hl0
       unfold plan at this
@@ -349,7 +370,7 @@ theorem plan2_sound (q : Q2) (db : DB) (h : planSound q = true) : execPlan (plan
       apply filter_eq_self_of
       intro x hx
       obtain ⟨l, hl, r, rfl⟩ := mem_leftJoin _ _ _ _ _ x hx
-      rw [where_eq_pL q hwl hnl l r]
+      rw [where_eq_pL q hwl l r]
       exact hL l hl
     have hF : ∀ l ∈ db.t0.filter (pL q), pL q l = true := fun l hl => (List.mem_filter.mp hl).2
     have hFt : ∀ l ∈ (db.t0.filter (pL q)).take n, pL q l = true :=
